@@ -152,7 +152,20 @@ pub fn check_case(ctx: &mut Ctx, ps: &mut Parsers, case: &Case, factors: &[f64],
         Some(ScalableValue::Linear(v)) => Pre::Linear(Quantity::new(v.clone(), None)),
     }).collect();
     let pre_t: Vec<Pre> = rec0.timers.iter().map(|t| pre_of(t.quantity.as_ref())).collect();
-    let servings = rec0.servings().map(|s| s.to_vec());
+    // the declared servings come from the generator's model of the source text (case parameter), not from the
+    // library's accessor: "the first declared servings" is part of what is being checked
+    let declared: Option<Vec<u32>> = case.params.get("declared_servings").and_then(|v| v.as_array()).map(|a| a.iter().filter_map(|x| x.as_u64().map(|x| x as u32)).collect());
+    let servings = match (&declared, case.params.get("declared_servings")) {
+        (Some(d), _) => Some(d.clone()),
+        (None, Some(_)) => None, // the model says: no servings declared
+        (None, None) => rec0.servings().map(|s| s.to_vec()), // replay of a foreign input: fall back to the accessor
+    };
+    if case.params.get("declared_servings").is_some() {
+        let got = rec0.servings().map(|s| s.to_vec());
+        if got != servings {
+            ctx.violation(case, "servings", "declared_servings_differ", format!("the source declares servings {servings:?} but the recipe reports {got:?}"));
+        }
+    }
 
     // default scaling: written values verbatim
     {
@@ -201,7 +214,11 @@ pub fn check_case(ctx: &mut Ctx, ps: &mut Parsers, case: &Case, factors: &[f64],
     for f in factors {
         let Ok(r) = parse() else { return };
         let Some(rec) = r.into_output() else { return };
-        let c2 = Case { params: json!({"factor": f}), ..case.clone() };
+        let mut c2 = case.clone();
+        if !c2.params.is_object() {
+            c2.params = json!({});
+        }
+        c2.params["factor"] = json!(f);
         ctx.begin(&c2);
         let s = match crate::core::guarded(|| rec.scale(*f, &conv)) {
             Ok(s) => s,
@@ -266,7 +283,11 @@ pub fn check_case(ctx: &mut Ctx, ps: &mut Parsers, case: &Case, factors: &[f64],
     for n in servings_targets {
         let (Ok(ra), Ok(rb)) = (parse(), parse()) else { return };
         let (Some(a), Some(b)) = (ra.into_output(), rb.into_output()) else { return };
-        let c2 = Case { params: json!({"servings_target": n}), ..case.clone() };
+        let mut c2 = case.clone();
+        if !c2.params.is_object() {
+            c2.params = json!({});
+        }
+        c2.params["servings_target"] = json!(n);
         ctx.begin(&c2);
         let base = servings.as_ref().and_then(|s| s.first().copied()).unwrap_or(1);
         if base == 0 {
@@ -284,6 +305,9 @@ pub fn check_case(ctx: &mut Ctx, ps: &mut Parsers, case: &Case, factors: &[f64],
                     ctx.violation(&c2, "servings", "scale_to_servings_differs", format!("servings {servings:?}, target {n}: at {}: scale(f) gives {} but scale_to_servings gives {}", d.0, d.1, d.2));
                 } else {
                     ctx.count(if servings.is_some() { "servings_declared_ok" } else { "servings_undeclared_ok" });
+                    if servings.as_ref().is_some_and(|s| s.windows(2).any(|w| w[0] > w[1])) {
+                        ctx.count("servings_declared_unsorted_ok");
+                    }
                 }
             }
         }
@@ -301,7 +325,9 @@ pub fn run(ctx: &mut Ctx) {
         let spec = g::gen_spec(&mut r, &opts);
         let sp = g::spell(&spec, seed, feat::ALL, 1);
         let (ext, conv) = if extended { (Extensions::all().bits(), "bundled") } else { (0, "empty") };
-        let case = Case::new("g1", sp.text.as_str(), ext, conv);
+        // sp.expected["data"] is the servings list the reference semantics derives from the spec (null = none)
+        let declared = sp.expected.as_ref().map(|e| e["data"].clone()).unwrap_or(J::Null);
+        let case = Case::new("g1", sp.text.as_str(), ext, conv).with(json!({"declared_servings": declared}));
         let mut factors = vec![2.0, 0.5, 1.0 / 3.0];
         factors.push(*ctx.rng.pick(&[1.0, 7.0, 1e-6, 1e6]));
         factors.push(ctx.rng.log_uniform(1e-3, 1e3));
@@ -314,6 +340,10 @@ pub fn replay(ctx: &mut Ctx, case: &Case) {
     let mut ps = Parsers::new();
     let f: Vec<f64> = case.params.get("factor").and_then(|x| x.as_f64()).map(|x| vec![x]).unwrap_or_else(|| vec![2.0, 0.5]);
     let t: Vec<u32> = case.params.get("servings_target").and_then(|x| x.as_u64()).map(|x| vec![x as u32]).unwrap_or_else(|| vec![1, 7]);
-    let c = Case { params: J::Null, ..case.clone() };
+    let mut c = case.clone();
+    if let Some(o) = c.params.as_object_mut() {
+        o.remove("factor");
+        o.remove("servings_target");
+    }
     check_case(ctx, &mut ps, &c, &f, &t);
 }
